@@ -77,6 +77,13 @@ pub fn xargs(sc: &XargsScenario, plan: &[ReadOp], ctx: &mut Ctx, bins: &Path) ->
     if sc.opts.iter().any(|o| matches!(o, crate::xargs::Opt::S(_) | crate::xargs::Opt::ArgFile)) {
         return Xc::NotComparable;
     }
+    // what standard input is: a pipe, a regular file, a regular file whose offset is already
+    // past bytes that somebody else consumed (`{ read header; xargs ...; } < file`), or something
+    // that cannot be read at all (a directory: the first read fails, which is xargs' own error)
+    let h = sc.input.0.len() + sc.cmd.len() + sc.opts.len() + plan.len();
+    let stdin_kind = if h % 7 == 6 { 3 } else { h % 3 };
+    let unreadable = [ReadOp::Err(libc::EISDIR)];
+    let plan: &[ReadOp] = if stdin_kind == 3 { &unreadable } else { plan };
     let fake = run_xargs_with(sc, plan, ctx);
     if fake.log.spawns().len() > 2000 {
         // (tens of thousands of real child processes would take minutes)
@@ -95,14 +102,18 @@ pub fn xargs(sc: &XargsScenario, plan: &[ReadOp], ctx: &mut Ctx, bins: &Path) ->
     ];
     cmd.extend(sc.cmd.iter().skip(1).cloned());
     let argv = sc.argv_with(&cmd);
-    // what standard input is: a pipe, a regular file, or a regular file whose offset is already
-    // past bytes that somebody else consumed (`{ read header; xargs ...; } < file`)
-    let stdin_kind = (sc.input.0.len() + sc.cmd.len() + sc.opts.len() + plan.len()) % 3;
     const CONSUMED: &[u8] = b"consumed-before-xargs 'x\n";
     let mut c = Command::new(bins.join("xargs"));
     c.args(&argv[1..]).current_dir(&dir).stdout(Stdio::null()).stderr(Stdio::piped());
     if stdin_kind == 0 {
         c.stdin(Stdio::piped());
+    } else if stdin_kind == 3 {
+        match std::fs::File::open(&dir) {
+            Ok(d) => {
+                c.stdin(Stdio::from(d));
+            }
+            Err(e) => return Xc::Disagree(format!("cannot open a directory as standard input: {e}")),
+        }
     } else {
         use std::io::{Seek, SeekFrom};
         let fp = dir.join("stdin.dat");
@@ -159,7 +170,7 @@ pub fn xargs(sc: &XargsScenario, plan: &[ReadOp], ctx: &mut Ctx, bins: &Path) ->
     let real_log = parse_child_log(&std::fs::read(&lp).unwrap_or_default());
     let fake_args: Vec<Vec<Vec<u8>>> = fake.spawn_argvs().into_iter().map(|a| a.into_iter().skip(1).collect()).collect();
     let real_args: Vec<Vec<Vec<u8>>> = real_log.into_iter().map(|(a, _)| a).collect();
-    let kind_name = ["a pipe", "a regular file", "a regular file read from an offset"][stdin_kind];
+    let kind_name = ["a pipe", "a regular file", "a regular file read from an offset", "a directory (unreadable)"][stdin_kind];
     let ctxs = || format!("xargs {:?} (standard input: {kind_name}) input [{}]", &argv[1..argv.len().min(12)], crate::sys::show(&sc.input.0[..sc.input.0.len().min(80)]));
     if fake.status != real_status {
         return Xc::Differs(format!("{}: in-process status {:?}, executable {:?}; stderr of the executable: {}", ctxs(), fake.status, real_status, crate::sys::lossy(&err[..err.len().min(300)])));
